@@ -1,5 +1,9 @@
 // C06 correspondence harness: the real fcppt integer helpers, instantiated for every type the
 // translator (tools/cxx2lean.py) translates, behind the line protocol of lean/FcpptModel/Drv/C06.lean.
+// The second-generation instantiations are grouped behind VERIF_C06_NO_<GROUP> (BOOL, NAMED, INTERVAL, STATIC, MASKS, CASTS,
+// DIV2, ENUM2): props/c06.py probes each group with a syntax-only compile before the harness is built and switches a
+// group off (reporting it as a broken correspondence) when a change in /repo makes it uncompilable — the other
+// functions keep their harness, so that a failing input can still be shown for them.
 #include "common/vh.hpp"
 
 #include <fcppt/bit/mask.hpp>
@@ -378,12 +382,14 @@ void reg_from_int()
   table["from_int_u32_" + v] = [](i128 x, i128 size, i128) {
     return size == 3 ? from_int<eu32_3, V>(x) : size == 70000 ? from_int<eu32_70000, V>(x) : std::string{"bad-op"};
   };
+#ifndef VERIF_C06_NO_ENUM2
   table["from_int_i8_" + v] = [](i128 x, i128 size, i128) {
     return size == 3 ? from_int<ei8_3, V>(x) : size == 128 ? from_int<ei8_128, V>(x) : std::string{"bad-op"};
   };
   table["from_int_i32_" + v] = [](i128 x, i128 size, i128) {
     return size == 3 ? from_int<ei32_3, V>(x) : size == 70000 ? from_int<ei32_70000, V>(x) : size == 2147483648LL ? from_int<ei32_2147483648, V>(x) : std::string{"bad-op"};
   };
+#endif
   table["from_int_u64_" + v] = [](i128 x, i128 size, i128) {
     return size == 3 ? from_int<eu64_3, V>(x) : size == 5000000000LL ? from_int<eu64_5000000000, V>(x) : std::string{"bad-op"};
   };
@@ -399,8 +405,12 @@ void reg_enum_size(char const *const u, i128 const maximum)
 template <typename T>
 void reg_second()
 {
+#ifndef VERIF_C06_NO_INTERVAL
   reg_interval<T>();
+#endif
+#ifndef VERIF_C06_NO_CASTS
   reg_casts<T>();
+#endif
 }
 
 // truncation_check on integral types that are not the fixed-width typedefs
@@ -416,6 +426,7 @@ void reg_trunc_named(char const *const d, char const *const s)
 void init2()
 {
   static_assert(std::is_signed_v<char> && sizeof(wchar_t) == 4 && std::is_signed_v<wchar_t> && sizeof(long long) == 8);
+#ifndef VERIF_C06_NO_NAMED
   reg_trunc_named<long long, std::int32_t>("ll", "i32");
   reg_trunc_named<std::int32_t, long long>("i32", "ll");
   reg_trunc_named<long long, std::uint64_t>("ll", "u64");
@@ -436,7 +447,9 @@ void init2()
   reg_trunc_named<char16_t, char32_t>("c16", "c32");
   reg_trunc_named<char32_t, std::int64_t>("c32", "i64");
   reg_trunc_named<std::int16_t, char16_t>("i16", "c16");
+#endif
   // bool is an (unsigned) integral type
+#ifndef VERIF_C06_NO_BOOL
   reg_trunc_named<bool, std::uint8_t>("b", "u8");
   reg_trunc_named<bool, std::uint16_t>("b", "u16");
   reg_trunc_named<bool, std::uint32_t>("b", "u32");
@@ -450,6 +463,7 @@ void init2()
   reg_trunc_named<std::int8_t, bool>("i8", "b");
   reg_trunc_named<std::int32_t, bool>("i32", "b");
   reg_trunc_named<std::int64_t, bool>("i64", "b");
+#endif
   reg_second<std::uint8_t>();
   reg_second<std::uint16_t>();
   reg_second<std::uint32_t>();
@@ -458,6 +472,7 @@ void init2()
   reg_second<std::int16_t>();
   reg_second<std::int32_t>();
   reg_second<std::int64_t>();
+#ifndef VERIF_C06_NO_DIV2
   reg_div<std::uint8_t>();
   reg_div<std::int8_t>();
   reg_div<std::uint16_t>();
@@ -472,6 +487,8 @@ void init2()
   reg_div_mixed<std::uint64_t, std::int8_t>();
   reg_div_mixed<std::int32_t, std::int64_t>();
   reg_div_mixed<std::uint32_t, std::uint64_t>();
+#endif
+#ifndef VERIF_C06_NO_CASTS
   reg_size_u<std::uint8_t>();
   reg_size_u<std::uint16_t>();
   reg_size_u<std::uint32_t>();
@@ -480,6 +497,8 @@ void init2()
   reg_size_i<std::int16_t>();
   reg_size_i<std::int32_t>();
   reg_size_i<std::int64_t>();
+#endif
+#ifndef VERIF_C06_NO_MASKS
   reg_mask_c<std::uint8_t, 0>();
   reg_mask_c<std::uint8_t, 1>();
   reg_mask_c<std::uint8_t, 5>();
@@ -505,6 +524,8 @@ void init2()
   reg_shifted_mask_c<std::uint64_t, 0>();
   reg_shifted_mask_c<std::uint64_t, 32>();
   reg_shifted_mask_c<std::uint64_t, 63>();
+#endif
+#ifndef VERIF_C06_NO_STATIC
   reg_static_row<std::uint32_t, 0, 1, 2, 3, 6, 7, 8, 65535, 65536, 65537, 2147483648U, 4294967294U, 4294967295U>();
   reg_static_row<std::uint64_t, 0, 1, 2, 3, 6, 7, 8, 65535, 65536, 65537, 4294967296ULL, 9223372036854775808ULL, 18446744073709551614ULL,
                  18446744073709551615ULL>();
@@ -523,6 +544,8 @@ void init2()
   reg_enum_size<ei32_3>("i32", 2);
   reg_enum_size<ei32_70000>("i32", 69999);
   reg_enum_size<ei32_2147483648>("i32", 2147483647);
+#endif
+#ifndef VERIF_C06_NO_DIV2
   // narrow ceil_div_signed: quotient and remainder are computed in int (never overflows) and cast back
   table["ceil_div_signed_i8"] = [](i128 a, i128 b, i128) {
     return show(fcppt::math::ceil_div_signed<std::int8_t>(static_cast<std::int8_t>(a), static_cast<std::int8_t>(b)));
@@ -538,6 +561,7 @@ void init2()
     std::int16_t const x = static_cast<std::int16_t>(a);
     return show(fcppt::math::ceil_div_signed<std::int16_t>(x, x));
   };
+#endif
   alias_table["ceil_div_u32"] = [](i128 a) {
     std::uint32_t const x = static_cast<std::uint32_t>(a);
     return show(fcppt::math::ceil_div<std::uint32_t>(x, x));
@@ -651,6 +675,7 @@ std::string selfcheck(std::string const &f, i128 const alo, i128 const ahi)
   if (f == "bit_test_u16")
     return selfcheck_rows<u16>(alo, ahi, [](u16 a, u16 b) { return fcppt::bit::test(a, fcppt::bit::mask<u16>{b}); },
                                [](long long a, long long b) { return static_cast<long long>((a & b) != 0); });
+#ifndef VERIF_C06_NO_DIV2
   if (f == "div_u16")
     return selfcheck_rows<u16>(alo, ahi, [](u16 a, u16 b) { return fcppt::math::div(a, b); },
                                [](long long a, long long b) { return b == 0 ? none_code : a / b; });
@@ -664,6 +689,7 @@ std::string selfcheck(std::string const &f, i128 const alo, i128 const ahi)
                                  long long const c = -floor_div(-a, b);
                                  return c > 32767 ? c - 65536 : c;
                                });
+#endif
   return "bad-op";
 }
 
